@@ -45,11 +45,12 @@ type BatchCase struct {
 	SlowEvery   int // consumer pauses 200us before every SlowEvery-th receive, 40 times at most (0 = never)
 
 	// faulty-reader (the chunk reader of the scan sub-property behind OpenReaderToChan)
-	Fault       bool `json:",omitempty"` // a non-EOF error is raised once FaultAt bytes were handed over
-	FaultAt     int  `json:",omitempty"`
-	ErrWithData bool `json:",omitempty"` // the read that reaches the end/fault returns (n>0, err)
-	LongStall   int  `json:",omitempty"` // run of (0, nil) reads before the StallAt-th read that hands over data
-	StallAt     int  `json:",omitempty"`
+	Fault       bool   `json:",omitempty"` // a non-EOF error is raised once FaultAt bytes were handed over
+	FaultAt     int    `json:",omitempty"`
+	ErrKind     string `json:",omitempty"` // see Case.ErrKind
+	ErrWithData bool   `json:",omitempty"` // the read that reaches the end/fault returns (n>0, err)
+	LongStall   int    `json:",omitempty"` // run of (0, nil) reads before the StallAt-th read that hands over data
+	StallAt     int    `json:",omitempty"`
 
 	// gzip (Content gzipped into a file, damaged, read by OpenFilesToChan with gunzip=true)
 	GzLevel    int   `json:",omitempty"` // compress/gzip level (0 = stored blocks, 1, -1)
@@ -193,7 +194,7 @@ func checkBatch(c BatchCase) error {
 		srcErr = io.EOF
 		if c.Fault && c.FaultAt >= 0 && c.FaultAt <= len(content) {
 			limit = c.FaultAt
-			srcErr = errInjected
+			srcErr, _ = faultErr(c.ErrKind)
 			wantErrs = 1
 		}
 		handed = content[:limit]
@@ -313,7 +314,16 @@ func genBatchLines(t *rapid.T, max int) pbt.S {
 	n := rapid.IntRange(0, max).Draw(t, "lines")
 	var sb bytes.Buffer
 	crlf := rapid.IntRange(0, 3).Draw(t, "crlf") == 0
+	// byte sequences that text tools like to "clean up" at the start of a stream or of a line: they are
+	// bytes of the line like any others (UTF-8 byte-order mark, UTF-16 marks, NUL, form feed)
+	marks := []string{"\xef\xbb\xbf", "\xff\xfe", "\xfe\xff", "\x00", "\f", "\xef\xbb"}
+	if rapid.IntRange(0, 5).Draw(t, "leadmark") == 0 {
+		sb.WriteString(rapid.SampledFrom(marks).Draw(t, "mark"))
+	}
 	for i := 0; i < n; i++ {
+		if rapid.IntRange(0, 40).Draw(t, "linemark") == 0 {
+			sb.WriteString(rapid.SampledFrom(marks).Draw(t, "mark2"))
+		}
 		switch rapid.IntRange(0, 9).Draw(t, "shape") {
 		case 0:
 			// empty line
@@ -387,6 +397,7 @@ func genBatchFault(t *rapid.T) BatchCase {
 		if rapid.IntRange(0, 5).Draw(t, "fault") != 0 {
 			c.Fault = true
 			c.FaultAt = rapid.IntRange(0, len(c.Content)).Draw(t, "faultAt")
+			c.ErrKind = rapid.SampledFrom(errKinds).Draw(t, "errKind")
 		}
 		c.ErrWithData = rapid.Bool().Draw(t, "errWithData")
 		if rapid.IntRange(0, 11).Draw(t, "longStall") == 0 {
